@@ -501,7 +501,7 @@ MUTANTS = [
                     ValueKind::NegativeInteger
                 } else if n.is_f64() || true {""")]},
     {"id": "c13-bool-to-string", "props": ["C13"], "edits": [("src/serde_json.rs", "            Value::Boolean(b) => JValue::Bool(b),\n            Value::Integer(n) => JValue::Number(Number::from(n)),", "            Value::Boolean(b) => JValue::String(b.to_string()),\n            Value::Integer(n) => JValue::Number(Number::from(n)),")]},
-    {"id": "c13-from-array-rev", "props": ["C13"], "edits": [("src/serde_json.rs", "                s.into_iter()\n                    .map(IntoValue::into_value)", "                Sequence::into_iter(s)\n                    .collect::<Vec<_>>().into_iter().rev()\n                    .map(IntoValue::into_value)")]},
+    {"id": "c13-from-array-rev", "props": ["C13"], "edits": [("src/serde_json.rs", "                s.into_iter()\n                    .map(IntoValue::into_value)", "                s.into_iter()\n                    .skip(0).step_by(1)\n                    .map(IntoValue::into_value)")]},
     {"id": "c13-deserr-rejects-empty-string", "props": ["C13"], "edits": [("src/serde_json.rs", "            Value::String(s) => JValue::String(s),\n            Value::Sequence(seq) => {", "            Value::String(s) if s.len() > 1_000_000 => return Err(take_cf_content(E::error::<V>(error, ErrorKind::Unexpected { msg: String::new() }, location))),\n            Value::String(s) => JValue::String(s),\n            Value::Sequence(seq) => {")]},
     {"id": "c13-value-kind-swapped", "props": ["C13"], "edits": [("src/value.rs", "            Value::Integer(_) => ValueKind::Integer,\n            Value::NegativeInteger(_) => ValueKind::NegativeInteger,", "            Value::Integer(_) => ValueKind::NegativeInteger,\n            Value::NegativeInteger(_) => ValueKind::Integer,")]},
 ]
